@@ -273,7 +273,7 @@ def m_oncelock(ex, c, a, m):
     return Ref(cell.fields, 0).field(0)
 
 
-@model(r'(Result|Option)::<.*?>::(map_err|map|ok_or|ok_or_else|unwrap_or|unwrap_or_default|unwrap_or_else|is_some|is_none|is_ok|is_err|ok|err|and_then|as_ref|as_mut|take|cloned|copied|as_deref|or_else|map_or|is_some_and|or|and|iter|into_iter|flatten|filter|is_ok_and|is_err_and)(::<.*>)?')
+@model(r'(Result|Option)::<.*?>::(map_err|map|ok_or|ok_or_else|unwrap_or|unwrap_or_default|unwrap_or_else|is_some|is_none|is_ok|is_err|ok|err|and_then|as_ref|as_mut|take|cloned|copied|as_deref|or_else|map_or|is_some_and|or|and|iter|into_iter|flatten|filter|is_ok_and|is_err_and|get_or_insert_with|get_or_insert|insert|replace)(::<.*>)?')
 def m_combinators(ex, c, a, m):
     k, op = m.group(1), m.group(2)
     v = d(a[0])
@@ -338,6 +338,14 @@ def m_combinators(ex, c, a, m):
     if op == 'take':
         a[0].set(NONE())
         return v
+    if op in ('get_or_insert_with', 'get_or_insert', 'insert', 'replace') and k == 'Option' and isinstance(a[0], Ref):
+        if op == 'replace':
+            a[0].set(Some(a[1]))
+            return v
+        if op == 'insert' or not g:
+            nv = ex.call_closure(a[1], []) if op == 'get_or_insert_with' else a[1]
+            a[0].set(Some(nv))
+        return a[0].field(0)
     raise Unmodelled('call ' + c)
 
 
@@ -1685,6 +1693,16 @@ def m_unit_default(ex, c, a, m):
 def m_int_eq(ex, c, a, m):
     r = ex.binop(ex.cur_fn, 'Eq', d(a[0]), d(a[1]), m.group(1))
     return r if m.group(2) == 'eq' else znot(r)
+
+
+@model(r'<Option<(u64|usize|u8|i64|u32|bool|char)> as PartialEq>::eq')
+def m_opt_int_eq(ex, c, a, m):
+    x, y = d(a[0]), d(a[1])
+    if x.variant != y.variant:
+        return False
+    if x.variant == 'None':
+        return True
+    return ex.binop(ex.cur_fn, 'Eq', d(x.fields[0]), d(y.fields[0]), m.group(1))
 
 
 @model(r'<(.+) as PartialEq(<.+>)?>::ne')
